@@ -198,6 +198,36 @@ def case_misc(col, p):
                 col.violation('C08:project:upward_wrong_exception', dict(p, frm=ns_from, to=ns_to), repr(e))
             col.tick(transitions=1)
         col.tick(states=6)
+    elif what == 'mask_window':
+        # a masked source entry h masks exactly the targets j it contributes to, j in [max(0, m-(n-h)), min(m, h)], however small the weight;
+        # for large samples the weights at the ends of the window are far below machine epsilon
+        n = p['n']
+        cnt = 0
+        for m in sorted(set([1, 2, n // 3, n // 2, n - 1, n])):
+            for h in sorted(set([0, 1, 2, n // 4, n // 2, n - 2, n - 1, n])):
+                fs = dadi.Spectrum(np.ones(n + 1), mask_corners=False)
+                fs.mask[h] = True
+                out = fs.project([m])
+                col.tick(transitions=1)
+                cnt += 1
+                lo, hi = max(0, m - (n - h)), min(m, h)
+                ex = np.zeros(m + 1, bool)
+                ex[lo:hi + 1] = True
+                got = np.ma.getmaskarray(out)
+                if not np.array_equal(got, ex):
+                    col.violation('C08:project:mask_window', dict(p, m=m, h=h), {'unmasked_inside_window': [int(j) for j in np.where(ex & ~got)[0]][:10],
+                                                                                 'masked_outside_window': [int(j) for j in np.where(got & ~ex)[0]][:10]})
+        # two dimensions, one large axis
+        fs = dadi.Spectrum(np.ones((n + 1, 4)), mask_corners=False)
+        fs.mask[n // 2, 1] = True
+        out = fs.project([n // 2, 3])
+        got = np.ma.getmaskarray(out)
+        ex = np.zeros((n // 2 + 1, 4), bool)
+        ex[max(0, n // 2 - (n - n // 2)):min(n // 2, n // 2) + 1, 1] = True
+        col.tick(transitions=1)
+        if not np.array_equal(got, ex):
+            col.violation('C08:project:mask_window', dict(p, m=[n // 2, 3], h=[n // 2, 1]), {'masked': int(got.sum()), 'expected': int(ex.sum())})
+        col.tick(states=cnt + 1)
     col.distinct('nontrivial', ('misc', what, p.get('n')))
 
 
@@ -442,6 +472,8 @@ def run(ctx):
     for n in (5, 12, 40):
         cases.append({'kind': 'misc', 'what': 'neutral_fixed_point', 'n': n})
     cases.append({'kind': 'misc', 'what': 'upward'})
+    for n in (41, 66, 100, 200):
+        cases.append({'kind': 'misc', 'what': 'mask_window', 'n': n})
     cases.append({'kind': 'cache_history', 'depth': 2 if ctx.quick else 3})
     # C
     starts = [((4,), None), ((5,), (2,)), ((3, 4), None), ((3, 4), (1, 2)), ((4, 4), (0, 3)), ((3, 2, 3), None), ((3, 2, 3), (1, 1, 1))]
